@@ -302,6 +302,25 @@ func TestPropWorkPanics(t *testing.T) {
 				stats.Class("item_panics_again_in_its_next_run")
 			}
 		}
+		if kind == "task" && mode == "finish" && runs == 1 && rapid.IntRange(0, 1).Draw(t, "queued_again_inside") == 0 {
+			// the task has a maximum delay of 5 ms and is queued again from inside its 30 ms run, which then panics: the new
+			// submission is overdue while the execution is still running and must be run afterwards
+			last := &sc.Modules[len(sc.Modules)-1]
+			for i := range last.Work {
+				if last.Work[i].ID == 100 {
+					last.Work[i].MaxDelayMS, last.Work[i].QueueInside, last.Work[i].HoldUS = 5, true, rapid.SampledFrom([]int{2000, 30000}).Draw(t, "hold")
+				}
+			}
+			steps := []modsim.Step{}
+			for _, st := range sc.Steps {
+				steps = append(steps, st)
+				if st.Op == "waitrestart" {
+					steps = append(steps, modsim.Step{Op: "waitrerun"})
+				}
+			}
+			sc.Steps = steps
+			stats.Class("task_queued_again_during_its_panicking_run_with_a_maximum_delay")
+		}
 		if kind == "service" && mode == "finish" && rapid.IntRange(0, 2).Draw(t, "from_prep") == 0 {
 			// the service worker is started by the module's prep routine and outlives the start (its first run takes
 			// 30 ms): it panics while the module is online and is restarted like any other
